@@ -213,3 +213,49 @@ def harness(name, hsrcs, reposrcs, cflags=('-O2', '-g', '-w'), libs=('-lm',), cc
         run([cc] + list(cflags) + ['-I', sd, '-o', exe + '.tmp'] + srcs + [os.path.join(sd, s) for s in reposrcs] + list(libs))
         os.rename(exe + '.tmp', exe)
     return exe
+
+
+CONFIG_H = '''static const char target[]               = "%s";
+static const char *const startfiles[]    = {"-l", ":crt1.o", "-l", ":crti.o"};
+static const char *const endfiles[]      = {"-l", "c", "-l", ":crtn.o"};
+static const char *const preprocesscmd[] = {"PP", "-pp-base1", "-pp-base2"};
+static const char *const codegencmd[]    = {"CG"};
+static const char *const assemblecmd[]   = {"AS", "-as-base"};
+static const char *const linkcmd[]       = {"LD", "-ld-base1", "-ld-base2"};
+'''
+
+
+def driver(triple, real=False):
+    """Build /repo's driver.c against a generated config.h: with the simulated world (drvmc) or,
+    real=True, as an ordinary executable whose tools are stub programs in tooldir."""
+    tag = 'drv-%s%s' % (triple, '-real' if real else '')
+    d = os.path.join(root(), tag)
+    exe = os.path.join(d, 'cproc' if real else 'drvmc')
+    world = os.path.join(HARNESS, 'world.c')
+    stub = os.path.join(HARNESS, 'stubtool.sh')
+    if os.path.exists(exe) and os.path.getmtime(exe) >= os.path.getmtime(stub if real else world):
+        return exe
+    with _lock(tag):
+        sd = srcdir()
+        os.makedirs(d, exist_ok=True)
+        cfg = CONFIG_H % triple
+        if real:
+            tooldir = os.path.join(d, 'tools')
+            os.makedirs(tooldir, exist_ok=True)
+            for name in ('PP', 'CG', 'AS', 'LD'):
+                cfg = cfg.replace('"%s"' % name, '"%s"' % os.path.join(tooldir, name))
+                shutil.copy(stub, os.path.join(tooldir, name))
+                os.chmod(os.path.join(tooldir, name), 0o755)
+            shutil.copy(stub, os.path.join(d, 'cproc-qbe'))
+            os.chmod(os.path.join(d, 'cproc-qbe'), 0o755)
+        with open(os.path.join(d, 'config.h'), 'w') as f:
+            f.write(cfg)
+        for n in ('driver.c', 'util.c', 'util.h'):
+            shutil.copy(os.path.join(sd, n), d)
+        if real:
+            run(['gcc', '-O1', '-g', '-w', '-I', d, '-o', exe + '.tmp', os.path.join(d, 'driver.c'), os.path.join(d, 'util.c')])
+        else:
+            run(['gcc', '-O1', '-g', '-w', '-I', d, '-Dmain=driver_main', '-c', '-o', os.path.join(d, 'driver.o'), os.path.join(d, 'driver.c')])
+            run(['gcc', '-O1', '-g', '-Wall', '-o', exe + '.tmp', world, os.path.join(d, 'driver.o'), os.path.join(d, 'util.c')])
+        os.rename(exe + '.tmp', exe)
+    return exe
